@@ -63,11 +63,11 @@ def own_status(node, soll):
     if node[0] in ("G", "S"):
         seg = Segment(discriminator=node[1], ahb_expression=node[2], data_elements=[])
         tag, v = evalimpl.outcome(lambda: asyncio.run(validate_segment_level(seg, soll)))
-        return None if tag != "ok" else v[0].validation_result.requirement_validation.name
+        return ("raises", v) if tag != "ok" else v[0].validation_result.requirement_validation.name
     if node[0] == "F":
         de = valcorr.to_maus(node)
         tag, v = evalimpl.outcome(lambda: asyncio.run(validate_data_element_freetext(de, None, soll)))
-        return None if tag != "ok" else v.validation_result.requirement_validation.name
+        return ("raises", v) if tag != "ok" else v.validation_result.requirement_validation.name
     return None
 
 
@@ -97,6 +97,12 @@ def oracle(ctx, case):
         mine = stat[d]
         if parent != "IS_FORBIDDEN" and node[0] in ("G", "S", "F") and not (node[0] == "F" and parent is None):
             own = own_status(node, soll)
+            if isinstance(own, tuple):
+                # the node has no status of its own (its evaluation aborts, e.g. UNKNOWN under MUSS): a report that lists it anyway made one up
+                if own[1] == "NotImpl":
+                    ctx.fail(f"status|{d}|{key}", dict(valcorr.describe(case), node=d), f"the run aborts with {own[1]} (the node validated on its own does)", f"reported as {mine}",
+                             "oracle: status = own status combined with the parent's per the documented table")
+                own = None
             if own is not None:
                 base = own.replace("_AND_FILLED", "").replace("_AND_EMPTY", "")
                 exp = COMBINE.get((parent, base))
@@ -119,6 +125,7 @@ def run(ctx):
     built = prepare(ctx, GENS, ["Props/C13.vo", "Corr/Validate.vo"])
     translator_validation(ctx)
     cases = valcorr.validation_cases(ctx, 60 if ctx.quick else 1500, unknown=0.04)
+    cases += valcorr.validation_cases(ctx, 40 if ctx.quick else 600, unknown=0.35)   # UNKNOWN outcomes at many nodes: the abort rule of the mapping
     valcorr.check_val_correspondence(ctx, cases, "C13")
     nontrivial = sum(oracle(ctx, c) for c in cases)
     ctx.coverage["distinct_nontrivial"] = nontrivial
